@@ -72,6 +72,17 @@ pub fn apply(t: &Trace, m: &Value) -> Vec<u8> {
             let sub = substitute(a.len, m["sub"].as_str().unwrap_or(""), m["r"].as_u64().unwrap_or(0), &t.bytes[a.off..a.off + a.len]);
             b[a.off..a.off + a.len].copy_from_slice(&sub);
         }
+        "allatoms" => {
+            // every byte-string atom of one length gets the same kind of substitute at once
+            let len = m["len"].as_u64().unwrap() as usize;
+            let sub = m["sub"].as_str().unwrap_or("");
+            for (i, a) in t.atoms.iter().enumerate() {
+                if a.kind == AtomKind::Bytes && a.len == len {
+                    let sb = substitute(a.len, sub, m["r"].as_u64().unwrap_or(0).wrapping_add(i as u64), &t.bytes[a.off..a.off + a.len]);
+                    b[a.off..a.off + a.len].copy_from_slice(&sb);
+                }
+            }
+        }
         "trunc" => {
             let at = m["at"].as_u64().unwrap() as usize;
             b.truncate(at.min(b.len()));
@@ -131,6 +142,27 @@ pub fn substitute(len: usize, sub: &str, r: u64, orig: &[u8]) -> Vec<u8> {
             let mut b = orig.to_vec();
             b[0] &= 0x7f;
             b
+        }
+        (48, "low-order-shift") => {
+            // the honest point plus a point of order 3: on the curve, outside the subgroup, and
+            // "almost" inside it (a randomised or batched membership test lets it through with
+            // probability 1/3)
+            let mut b = [0u8; 48];
+            b.copy_from_slice(orig);
+            let p: Option<bls12_381::G1Affine> = bls12_381::G1Affine::from_compressed(&b).into();
+            match p {
+                Some(p) => bls12_381::G1Affine::from(bls12_381::G1Projective::from(p) + bad::g1_torsion3()).to_compressed().to_vec(),
+                None => orig.to_vec(),
+            }
+        }
+        (96, "low-order-shift") => {
+            let mut b = [0u8; 96];
+            b.copy_from_slice(orig);
+            let p: Option<bls12_381::G2Affine> = bls12_381::G2Affine::from_compressed(&b).into();
+            match p {
+                Some(p) => bls12_381::G2Affine::from(bls12_381::G2Projective::from(p) + bad::g2_torsion13()).to_compressed().to_vec(),
+                None => orig.to_vec(),
+            }
         }
         (48, "other") => crate::refc::g1b(&crate::refc::rand_g1(&mut s)).to_vec(),
         (48, "neg") => {
@@ -215,8 +247,8 @@ pub fn substitute(len: usize, sub: &str, r: u64, orig: &[u8]) -> Vec<u8> {
 /// The invalid / boundary substitutes that apply to an atom of the given kind and length.
 pub fn substitutes_for(kind: AtomKind, len: usize) -> Vec<&'static str> {
     match (kind, len) {
-        (AtomKind::Bytes, 48) => vec!["identity", "offcurve", "nonsub", "inf-flag", "inf-junk", "inf-sign", "no-compression-flag", "other", "random"],
-        (AtomKind::Bytes, 96) => vec!["identity", "offcurve", "nonsub", "inf-flag", "inf-junk", "inf-sign", "no-compression-flag", "other", "random"],
+        (AtomKind::Bytes, 48) => vec!["identity", "offcurve", "nonsub", "low-order-shift", "inf-flag", "inf-junk", "inf-sign", "no-compression-flag", "other", "random"],
+        (AtomKind::Bytes, 96) => vec!["identity", "offcurve", "nonsub", "low-order-shift", "inf-flag", "inf-junk", "inf-sign", "no-compression-flag", "other", "random"],
         (AtomKind::Bytes, 32) => vec!["q", "q+1", "ones", "hibit", "orig+q", "closetag", "closetag+q", "zero", "other"],
         (AtomKind::U64, 8) => vec!["2^63", "2^64-1", "2^63-1", "zero"],
         (AtomKind::I64, 8) => vec!["imin", "imin+1", "2^63-1", "zero"],
@@ -237,6 +269,7 @@ pub fn describe(m: &Value) -> String {
     match k {
         "seqlen" => format!("seqlen->{}{}", m["to"].as_str().unwrap_or("?"), if m["trail"].as_bool().unwrap_or(false) { "+trail" } else { "" }),
         "atom" => format!("atom->{}", m["sub"].as_str().unwrap_or("?")),
+        "allatoms" => format!("allatoms[{}]->{}", m["len"].as_u64().unwrap_or(0), m["sub"].as_str().unwrap_or("?")),
         other => other.to_string(),
     }
 }
